@@ -220,8 +220,9 @@ def truth(v):
 
 
 def same(x, y):
-    """fixpoint test of Converge on exact values: structural equality of canonical forms (reals excluded by the generators)"""
-    return norm(canon(x)) == norm(canon(y))
+    """fixpoint test of Converge on exact values: equality of canonical forms, as strict as Klong's Match on exact
+    values (a list of characters and a string are different values there); reals are excluded by the generators"""
+    return canon(x) == canon(y)
 
 
 def expansion(w, adv, vid, a, left=None):
